@@ -164,3 +164,14 @@ SPECS["C02"] += [
     FuncSpec(GEOMED, "_gradf_and_inv_hessf", "geomed_gradf_and_inv_hessf", [("data", A(K, 2)), ("n", N), ("z", A(K, 1))], bind=ROBUST_BIND,
              locals={"gx": K, "gy": K, "a11": K, "a12": K, "a22": K}),
 ]
+
+# ---- C13: chunk_array (a generator of NumPy index tuples): the list of (position of the slice, start, stop)
+SPECS["C13"] = [
+    FuncSpec("arim/helpers.py", "chunk_array", "chunk_array", [("array_shape", A(N, 1)), ("ndim", N), ("block_size", N), ("axis", N)],
+             bind={"len(array_shape)": ("ndim", N)}, skip=["axis = list(range(ndim))[axis]"], gen=True,
+             doc="`axis` already normalised to `0 <= axis < ndim` (the skipped statement `axis = list(range(ndim))[axis]`); "
+                 "every yielded index tuple as (position of the slice in the tuple, start, stop)"),
+]
+IMPORTS["C13"] = ["ArimModel.Src"]
+USES["C13"] = ["C02", "C01"]
+USES["C08"] = ["C10", "C13"]
